@@ -7,6 +7,16 @@ CHECKS = {
     note="Trusted: Coq kernel+vm_compute, the translator (gen_data.py), RDKit as the source of a SMILES' true atoms and charge, the differential harness. All theorems closed under the global context.",
     technique="Coq proof over hand-written Gallina model + differential correspondence (vm_compute) + regenerated symbol table",
     design="7/C07"),
+ "C08": dict(
+    text="Machine-checked proof (Coq): every completion returned by the model of the DFS solver (any database with unique keys per record, any imbalance, any fuel) sums to the imbalance in every element and in charge, uses only database compounds, with multiplicities >= 1 for databases with positive counts; accepted completions contain no banned substring. Generated obligations re-proved on the current files each run: every record well-formed, recorded composition = composition of RDKit's atoms of its SMILES, every dihalogen of the database covered by the ban list. Correspondence: ranked solution lists of SyntheticRuleMatcher compared in order with the model inside Coq on enumerated/random/composed imbalance vectors for both databases, single_impute and RuleConstraint.fit on generated marker strings, the stage on corpus reactions.",
+    note="Trusted: Coq kernel+vm_compute, translator, RDKit for true compositions (oracle columns), harness. Solver termination is modelled by fuel (fuel exhaustion = abnormal result, never observed; the correspondence would flag it).",
+    technique="Coq proof (induction over the DFS) + generated-data obligations by vm_compute + differential correspondence",
+    design="7/C08"),
+ "C19": dict(
+    text="Machine-checked proof (Coq): the invariant (unique formulas, unique SMILES, every record valid with the composition of its SMILES and an explicit charge) holds for the empty database, is preserved by add_entry/add_entries/remove_entry for every oracle, hence after every history; rejections happen exactly for duplicate formula / duplicate SMILES / invalid SMILES and change nothing; bulk add reports only rejected entries; removal deletes only the named record. Generated obligation: both shipped files are duplicate-free (re-proved each run). Correspondence: RuleImputeManager vs the model on all histories up to length 3/4 from empty and random histories up to 40 from the shipped databases.",
+    note="Trusted: Coq kernel+vm_compute, translator, RDKit validity/atoms as the oracle, harness.",
+    technique="Coq invariant proof by induction over operation histories + exhaustive short-history correspondence",
+    design="7/C19"),
 }
 NA = []
 def main():
